@@ -188,10 +188,22 @@ func c16Setup(c *core.Ctx, layout string, conf c16Config, idx int) *c16Env {
 	root, inc := c16Journals()
 	base := root + "\n" + inc
 	rootOpt := ""
+	var openEdited [][3]string // file, disk text, editor text
 	switch layout {
 	case "include":
 		_ = os.WriteFile(filepath.Join(dir, "inc.journal"), []byte(inc), 0o644)
 		base = "include inc.journal\n\n" + root
+	case "two-included-files-open-and-edited":
+		// both included files are open with unsaved edits: what is on disk are older
+		// versions with other names, the editor texts are the two halves of inc
+		parts := strings.SplitN(inc, "2001-02-03", 2)
+		new1, new2 := parts[0], "2001-02-03"+parts[1]
+		old1 := "2001-02-01 Old Payee One\n    old:account one  1 OLD\n    old:other  -1 OLD\n"
+		old2 := "2001-02-03 Old Payee Two  ; oldtag:v\n    old:account two  1 OLD\n    old:other  -1 OLD\n"
+		_ = os.WriteFile(filepath.Join(dir, "inc1.journal"), []byte(old1), 0o644)
+		_ = os.WriteFile(filepath.Join(dir, "inc2.journal"), []byte(old2), 0o644)
+		base = "include inc1.journal\ninclude inc2.journal\n\n" + root
+		openEdited = [][3]string{{"inc1.journal", old1, new1}, {"inc2.journal", old2, new2}}
 	case "workspace":
 		_ = os.WriteFile(filepath.Join(dir, "inc.journal"), []byte(inc), 0o644)
 		base = "include inc.journal\n\n" + root
@@ -201,6 +213,11 @@ func c16Setup(c *core.Ctx, layout string, conf c16Config, idx int) *c16Env {
 	s := wire.New()
 	s.Initialize(wire.InitOpts{Root: rootOpt, Options: fmt.Sprintf(`{"completion":{"maxResults":%d,"fuzzyMatching":%v,"showCounts":%v}}`, conf.Max, conf.Fuzzy, conf.Counts)})
 	s.Initialized()
+	for _, oe := range openEdited {
+		u := wire.URI(filepath.Join(dir, oe[0]))
+		s.DidOpen(u, oe[1])
+		s.DidChangeFull(u, oe[2], 2)
+	}
 	return &c16Env{s: s, uri: wire.URI(filepath.Join(dir, "main.journal")), base: base, conf: conf, layout: layout}
 }
 
@@ -231,7 +248,7 @@ func checkC16(c *core.Ctx) {
 			}
 		}
 	}
-	layouts := []string{"single", "include", "workspace"}
+	layouts := []string{"single", "include", "workspace", "two-included-files-open-and-edited"}
 	if c.Replay != nil {
 		var cs c16Case
 		if err := jsonUnmarshal(c.Replay, &cs); err != nil {
@@ -248,7 +265,7 @@ func checkC16(c *core.Ctx) {
 		c16CheckResponse(c, model, env, c16Line{Context: cs.Context}, cs.Line, cs.Cursor, cs.Fragment, true, items, 0)
 		return
 	}
-	c.Bound("symbol table", "6 accounts, 4 payees, 3 commodities, 3 tags with 0-2 values; use counts with ties and strict orders; single file, root + included file, root + included file + workspace")
+	c.Bound("symbol table", "6 accounts, 4 payees, 3 commodities, 3 tags with 0-2 values; use counts with ties and strict orders; single file, root + included file, root + included file + workspace, root + two included files that are open with unsaved edits")
 	c.Bound("configurations", "maxResults {1,2,3,5,50,200} x fuzzy on/off x counts on/off")
 	sampled := 0
 	envIdx := 0
